@@ -67,6 +67,16 @@ type nlJob struct {
 	Units       []int     `json:"units"`
 	// do not execute Write on a conn whose session has been torn down (the probe run has shown that it kills the process)
 	PruneDeadWrite bool `json:"prune_dead_write"`
+	// concurrent Close/Close of one accepted conn under the serialising scheduler (needs the instrumented build)
+	Conc *nlConcJob `json:"conc"`
+}
+
+type nlConcJob struct {
+	StartProj []int    `json:"start_proj"`
+	Scheds    []nlPath `json:"scheds"`
+	Random    int      `json:"random"`
+	Unit      int      `json:"unit"`
+	Small     bool     `json:"small"`
 }
 
 type nlViolation struct {
@@ -170,6 +180,8 @@ type nlWorld struct {
 	pruneDead    bool
 	envAbort     string // the environment (not the code under test) made this path unusable
 	free         bool   // explicit path without predicted projections
+	wcT          map[int]*vsThread // goroutines inside streamWrapper.Close of the target conn (scheduler threads)
+	wcBase       int               // WaitGroup counter when the target conn was accepted
 }
 
 var nlWorldSeq int64
@@ -396,7 +408,7 @@ func nlIsTimeout(err error) bool {
 }
 
 const nlShortDL = 30 * time.Millisecond
-const nlLongDL = 2 * time.Second
+const nlLongDL = 5 * time.Second
 
 func (w *nlWorld) read(side, c, k, sz int, expTimeout bool) nlObs {
 	ep := w.endpoint(side, c, k)
@@ -969,6 +981,18 @@ func (w *nlWorld) exec(op string, a []int, cands []nlCand) (nlObs, []string) {
 		got = w.lclose()
 	case "sessclose":
 		got = w.sessclose(a[0])
+	case "wcbegin":
+		got = w.wcBegin(a[0], a[1], a[2])
+	case "point":
+		// one scheduling point of closer a[0] (replay of a random interleaving)
+		if th := w.wcT[a[0]]; th != nil && !th.done {
+			vsStep(th)
+			w.cnt["conc_sched_points"]++
+			w.wcCheck(th)
+		}
+		got = nlObs{res: "ok"}
+	case "wcguard", "wcstream", "wcstore", "wcdone":
+		got = w.wcAdvance(op, a[0], a[1], a[2])
 	case "await_session_end":
 		// hand-written paths only: wait (up to 8s) until both ends of session a[0] are closed and torn down
 		got = nlObs{res: "timeout"}
@@ -1646,6 +1670,9 @@ func TestVS_NetListener(t *testing.T) {
 	if budget <= 0 {
 		budget = 60 * time.Second
 	}
+	if job.Conc != nil {
+		run.conc(job.Conc)
+	}
 	// explicit paths first
 	if len(job.Paths) > 0 {
 		var wg sync.WaitGroup
@@ -1709,5 +1736,374 @@ func TestVS_NetListener(t *testing.T) {
 	out, _ := json.Marshal(res)
 	if err := os.WriteFile(os.Getenv("VS_OUT"), out, 0o644); err != nil {
 		t.Fatal(err)
+	}
+}
+
+// ---------------------------------------------------------------------------------------------------------------
+// concurrent Close of ONE accepted conn by two goroutines (net.Conn allows it), interleaved exactly: the build is
+// instrumented (tools/instr: a scheduling point before every statement and every atomic of streamWrapper.Close), the
+// two closers are threads of the serialising scheduler (zz_vs_sched.go). One world, one session, a witness conn that
+// stays open, and a fresh target conn per schedule. Schedules: (1) the spec's interleavings of the steps guard CAS /
+// stream.Close() / wg.Done() of two callers (TLC, edge cover, every step compared with the predicted projection),
+// (2) seeded random interleavings at every scheduling point. Oracles on the real objects: no panic, the reference
+// of the conn is released exactly once (WaitGroup counter), the session stays up and the witness conn still carries
+// data both ways, the client sees the end of the closed stream; at the end the listener is closed, the session must
+// stay while the witness is open and must end when the witness is closed (by two racing closers again).
+
+func (w *nlWorld) wcBegin(t, c, k int) nlObs {
+	st := w.stream(c, k)
+	if st.conn == nil {
+		return nlObs{res: "err", note: "no conn"}
+	}
+	if w.wcT == nil {
+		w.wcT = map[int]*vsThread{}
+	}
+	conn := st.conn
+	w.wcT[t] = vsSpawn(t, func(*vsThread) { _ = conn.Close() })
+	return nlObs{res: "ok"}
+}
+
+func (w *nlWorld) wcCheck(th *vsThread) {
+	if th.panicVal != nil {
+		w.ledgerBad = fmt.Sprintf("conn.Close panicked while another goroutine was closing the same conn: %v", th.panicVal)
+	}
+	if nlWgOK && w.sess[0].wg != nil {
+		if n := nlWgCount(w.sess[0].wg); n < w.wcBase-1 && w.ledgerBad == "" {
+			w.ledgerBad = fmt.Sprintf("closing ONE conn (two goroutines at the same time) released %d references of the session's "+
+				"WaitGroup (counter %d -> %d): the session will be shut down under its other open conns", w.wcBase-n, w.wcBase, n)
+		}
+	}
+}
+
+// wcAdvance lets closer t run up to and including the step named by op: the guard (its first atomic access to closed),
+// stream.Close() (server stream gone), the store of the weak guard, wg.Done() (counter changed) - or to its end.
+func (w *nlWorld) wcAdvance(op string, t, c, k int) nlObs {
+	th := w.wcT[t]
+	if th == nil {
+		return nlObs{res: "err", note: "closer not started"}
+	}
+	st := w.stream(c, k)
+	wg0 := 0
+	if nlWgOK && w.sess[c-1].wg != nil {
+		wg0 = nlWgCount(w.sess[c-1].wg)
+	}
+	atomics := 0
+	for i := 0; i < 64 && !th.done; i++ {
+		ex, _ := vsStep(th)
+		w.cnt["conc_sched_points"]++
+		if strings.Contains(ex, "Uint32") {
+			atomics++
+		}
+		stop := false
+		switch op {
+		case "wcguard":
+			stop = atomics >= 1
+		case "wcstream":
+			stop = st.sw != nil && nlStreamState(st.sw.stream) == 2
+		case "wcstore":
+			stop = atomics >= 1
+		case "wcdone":
+			stop = nlWgOK && nlWgCount(w.sess[c-1].wg) != wg0
+		}
+		if stop {
+			break
+		}
+	}
+	w.wcCheck(th)
+	return nlObs{res: "ok"}
+}
+
+// wcFinish runs every closer that is still inside Close to its end (order given by rng) and returns when all are out
+func (w *nlWorld) wcFinish(rng *rand.Rand) {
+	for {
+		var live []*vsThread
+		for _, t := range []int{1, 2} {
+			if th := w.wcT[t]; th != nil && !th.done {
+				live = append(live, th)
+			}
+		}
+		if len(live) == 0 {
+			break
+		}
+		th := live[rng.Intn(len(live))]
+		ex, _ := vsStep(th)
+		w.cnt["conc_sched_points"]++
+		w.log = append(w.log, nlEdge{Op: "point", A: []int{th.id}, Res: "ok", Label: fmt.Sprintf("t%d:%s", th.id, ex)})
+		w.wcCheck(th)
+	}
+	w.wcT = nil
+}
+
+// witnessRoundTrip: the other conn of the session must be untouched by whatever happened to the target conn
+func (w *nlWorld) witnessRoundTrip() string {
+	for side := 0; side < 2; side++ {
+		if o := w.write(side, 1, 2, 1); o.res != "ok" {
+			return fmt.Sprintf("the other, open conn of the session no longer works: Write (side %d) -> %s %s", side, o.res, o.note)
+		}
+		ep := w.endpoint(1-side, 1, 2)
+		buf := make([]byte, w.unit)
+		got := 0
+		ep.SetReadDeadline(time.Now().Add(3 * time.Second))
+		for got < w.unit {
+			n, err := ep.Read(buf[got:])
+			got += n
+			if err != nil {
+				ep.SetReadDeadline(time.Time{})
+				return fmt.Sprintf("the other, open conn of the session no longer works: Read (side %d) -> %v", 1-side, err)
+			}
+		}
+		ep.SetReadDeadline(time.Time{})
+		w.checkRead(1, 2, side, buf, got, len(buf))
+		if w.ledgerBad != "" {
+			return w.ledgerBad
+		}
+	}
+	return ""
+}
+
+func (w *nlWorld) waitProj(want []int, d time.Duration) ([]int, bool) {
+	dl := time.Now().Add(d)
+	var p []int
+	ok := 0
+	for time.Now().Before(dl) {
+		p = w.project()
+		if nlEqInts(p, want) {
+			ok++
+			if ok >= 3 {
+				return p, true
+			}
+		} else {
+			ok = 0
+		}
+		time.Sleep(300 * time.Microsecond)
+	}
+	return p, false
+}
+
+func (r *nlRun) conc(cj *nlConcJob) {
+	res := r.res
+	fail := func(kind, detail string, w *nlWorld, name string) {
+		p := nlPath{Name: name, NS: 1, NK: 2, BCap: 2, Unit: cj.Unit, Small: cj.Small}
+		if w != nil {
+			p.Steps = w.log
+		}
+		r.addViolation(nlViolation{Kind: kind, Detail: detail, Graph: "conc-close", Path: p})
+	}
+	vsReset(vsSched)
+	defer vsReset(vsOff)
+	rng := rand.New(rand.NewSource(r.job.Seed*2654435761 + 17))
+	w, err := nlNewWorld(1, 2, 2, cj.Unit, cj.Small, r.job.Seed, r.dir, r.job.Known)
+	if err != nil {
+		res.HarnessErr = append(res.HarnessErr, "conc listen: "+err.Error())
+		return
+	}
+	if o := w.connect(1); o.res != "ok" {
+		res.EnvAborted++
+		res.HarnessErr = append(res.HarnessErr, "conc: connect failed: "+o.note)
+		w.finish(false)
+		return
+	}
+	// witness conn (slot 2): opened, accepted, drained
+	setup := func(k int) string {
+		if o := w.open(1, k); o.res != "ok" {
+			return "open: " + o.note
+		}
+		if o := w.write(0, 1, k, 2); o.res != "ok" {
+			return "write: " + o.note
+		}
+		if o := w.accept(false); o.res != "conn" || len(o.rn) != 2 || o.rn[1] != k {
+			return fmt.Sprintf("accept: %s %v %s", o.res, o.rn, o.note)
+		}
+		return ""
+	}
+	if e := setup(2); e != "" {
+		res.HarnessErr = append(res.HarnessErr, "conc: witness setup: "+e)
+		w.finish(false)
+		return
+	}
+	if o := w.read(1, 1, 2, 3, false); o.res != "ok" {
+		res.HarnessErr = append(res.HarnessErr, "conc: witness read: "+o.res+" "+o.note)
+		w.finish(false)
+		return
+	}
+	broken := false
+	// one schedule on a fresh target conn (slot 1)
+	one := func(name string, steps []nlEdge, random bool) {
+		w.sess[0].streams[0] = &nlStream{}
+		w.log = nil
+		if e := setup(1); e != "" {
+			res.HarnessErr = append(res.HarnessErr, "conc: target setup: "+e)
+			broken = true
+			return
+		}
+		if p, ok := w.waitProj(cj.StartProj, 3*time.Second); !ok {
+			res.DriftCount++
+			res.Drift = append(res.Drift, fmt.Sprintf("conc-close %s: start state: real proj %v, spec %v", name, p, cj.StartProj))
+			broken = true
+			return
+		}
+		w.wcBase = nlWgCount(w.sess[0].wg)
+		drift := ""
+		if random {
+			w.wcBegin(1, 1, 1)
+			w.wcBegin(2, 1, 1)
+			for _, t := range []int{1, 2} {
+				w.log = append(w.log, nlEdge{Op: "wcbegin", A: []int{t, 1, 1}, Res: "ok", Label: fmt.Sprintf("WcBegin(%d,1,1)", t)})
+			}
+			for w.ledgerBad == "" {
+				var live []int
+				for _, t := range []int{1, 2} {
+					if !w.wcT[t].done {
+						live = append(live, t)
+					}
+				}
+				if len(live) == 0 {
+					break
+				}
+				t := live[rng.Intn(len(live))]
+				ex, _ := vsStep(w.wcT[t])
+				w.cnt["conc_sched_points"]++
+				w.log = append(w.log, nlEdge{Op: "point", A: []int{t}, Res: "ok", Label: fmt.Sprintf("t%d:%s", t, ex)})
+				w.wcCheck(w.wcT[t])
+			}
+		} else {
+			for i := range steps {
+				e := steps[i]
+				e.Src = -2
+				out := w.step(e.Op, e.A, []nlCand{{e: &e, proj: e.Proj}})
+				res.Steps++
+				if out.violation != "" || w.ledgerBad != "" {
+					break
+				}
+				if out.matched < 0 {
+					drift = out.drift
+					break
+				}
+			}
+		}
+		if len(w.wcT) == 0 {
+			w.wcBegin(1, 1, 1) // a schedule without any closer (Reads only): the conn still has to be closed
+		}
+		w.wcFinish(rng)
+		st := w.stream(1, 1)
+		st.sclosed = true
+		// at rest: exactly one reference released, the closed flag set, the server stream gone
+		if w.ledgerBad == "" && nlWgOK {
+			dl := time.Now().Add(2 * time.Second)
+			for nlWgCount(w.sess[0].wg) != w.wcBase-1 && time.Now().Before(dl) {
+				time.Sleep(300 * time.Microsecond)
+			}
+			if n := nlWgCount(w.sess[0].wg); n != w.wcBase-1 {
+				w.ledgerBad = fmt.Sprintf("after Close of one conn by two goroutines the session's WaitGroup counter is %d, expected %d", n, w.wcBase-1)
+			}
+		}
+		if w.ledgerBad == "" && (atomic.LoadUint32(&st.sw.closed) != 1 || nlStreamState(st.sw.stream) != 2) {
+			w.ledgerBad = "after Close returned in both goroutines the conn is not closed (closed flag / stream state)"
+		}
+		if w.ledgerBad == "" {
+			if sv, _ := w.sessionOracle(); sv != "" {
+				w.ledgerBad = sv
+			}
+		}
+		if w.ledgerBad == "" {
+			if e := w.witnessRoundTrip(); e != "" {
+				w.ledgerBad = e
+			}
+		}
+		if w.ledgerBad == "" {
+			// the client end learns the close: Read ends with an error (after what was still to be read), no hang
+			buf := make([]byte, 4*w.unit)
+			st.cs.SetReadDeadline(time.Now().Add(3 * time.Second))
+			_, err := st.cs.Read(buf)
+			st.cs.SetReadDeadline(time.Time{})
+			if err == nil || nlIsTimeout(err) {
+				w.ledgerBad = fmt.Sprintf("the client end of the closed conn does not see the close: Read -> %v", err)
+			}
+		}
+		st.cs.Close()
+		st.cclosed = true
+		res.Paths++
+		if random {
+			w.cnt["conc_random_interleavings"]++
+		} else {
+			w.cnt["conc_spec_schedules"]++
+		}
+		if w.ledgerBad != "" {
+			broken = true
+			return
+		}
+		if drift != "" {
+			res.DriftCount++
+			if len(res.Drift) < 10 {
+				res.Drift = append(res.Drift, "conc-close "+name+": "+drift)
+			}
+		} else {
+			res.Conforming++
+		}
+	}
+	for i := range cj.Scheds {
+		if broken {
+			break
+		}
+		one(cj.Scheds[i].Name, cj.Scheds[i].Steps, false)
+	}
+	for i := 0; i < cj.Random && !broken; i++ {
+		one(fmt.Sprintf("random-%d", i), nil, true)
+	}
+	name := "conc-close"
+	detail := w.ledgerBad
+	// final phase: the listener closes; the session must live exactly as long as the witness conn is open
+	w.sess[0].streams[0] = &nlStream{}
+	w.lclose()
+	time.Sleep(50 * time.Millisecond)
+	if w.sess[0].srv.IsClosed() {
+		msg := "after listener.Close the session was shut down although a conn returned by Accept (the witness) is still open"
+		if detail == "" {
+			detail = msg
+		} else {
+			detail += "; consequence: " + msg
+		}
+	} else if detail == "" {
+		if e := w.witnessRoundTrip(); e != "" {
+			detail = "after listener.Close: " + e
+		}
+	}
+	if detail == "" {
+		w.ledgerBad = ""
+		w.wcBase = nlWgCount(w.sess[0].wg)
+		w.wcT = map[int]*vsThread{}
+		conn := w.stream(1, 2).conn
+		for _, t := range []int{1, 2} {
+			w.wcT[t] = vsSpawn(t, func(*vsThread) { _ = conn.Close() })
+		}
+		w.wcFinish(rng)
+		w.stream(1, 2).sclosed = true
+		if w.ledgerBad != "" {
+			detail = w.ledgerBad
+		} else {
+			dl := time.Now().Add(4 * time.Second)
+			for !w.sess[0].srv.IsClosed() && time.Now().Before(dl) {
+				time.Sleep(time.Millisecond)
+			}
+			if !w.sess[0].srv.IsClosed() {
+				detail = "listener closed and the last conn closed (by two goroutines at once): the session does not end"
+			}
+		}
+	}
+	for k, v := range w.cnt {
+		res.Counters[k] += v
+	}
+	if detail != "" {
+		fail("conc", detail, w, name)
+		// no orderly teardown: the reference count of this world is wrong, closing more conns would panic
+		func() {
+			defer func() { recover() }()
+			w.sess[0].cl.Close()
+		}()
+		return
+	}
+	w.ledgerBad = ""
+	if fin := w.finish(false); fin != "" {
+		fail("conc", fin, w, name)
 	}
 }
